@@ -25,7 +25,9 @@ class C18:
     rule = ("exhaustive: every ordered table of <=L entries (L=3 quick, 4 thorough) over the 10-pattern universe x "
             "every host of the 11-host universe, each look-up repeated 50 times on fresh tables (map-order instability "
             "shows as >1 distinct answer); random: tables of 5-12 entries over generated literal/wildcard patterns, "
-            "next hops with/without port, protocols udp/tcp/tls in any case. Non-trivial = a table with at least two "
+            "next hops with/without port, protocols udp/tcp/tls in any case; sequences: 6-18 look-ups of DIFFERENT hosts one after the "
+            "other on one table object (every ordered pair of patterns, a sample of the triples, random tables), each answer judged by "
+            "the precedence rule alone (an answer that depends on earlier look-ups is rejected). Non-trivial = a table with at least two "
             "entries of which at least one matches the host (literally, by wildcard or as default); distinct by content hash.")
     trusted = ["regexp.MatchString is trusted to implement ^...$ with '.*' and escaped dots as Glob.v says (validated by the run)"]
     assumptions = ["patterns over [A-Za-z0-9.*-] (other regexp metacharacters are not escaped by toRegularExp), hosts without LF"]
@@ -70,6 +72,36 @@ class C18:
                 toks += list(e)
             toks += [host, 50]
             cases.append(Case("findroute", "r%d" % i, toks, {"kind": "random", "entries": len(ents)}))
+        # ---- sequences: different hosts looked up one after the other on ONE table object (the answer for a host must
+        #      not depend on what was looked up before): every ordered pair/triple of patterns x random host sequences
+        seq_n = 0
+        for k in (2, 3):
+            for pats in itertools.product(PATTERNS, repeat=k):
+                if k == 3 and rng.random() < (0.8 if tier == "quick" else 0.0):
+                    continue
+                ents = [(rng.choice(PROTOS), p, nexthop(i, rng)) for i, p in enumerate(pats)]
+                hs = [rng.choice(HOSTS) for _ in range(rng.randrange(3, 9))]
+                hs += [hs[0], hs[1], hs[0]]
+                toks = [len(ents)]
+                for e in ents:
+                    toks += list(e)
+                toks += [len(hs)] + hs
+                cases.append(Case("findroute-seq", "s%d" % seq_n, toks, {"kind": "sequence", "entries": k}))
+                seq_n += 1
+        for i in range(200 if tier == "quick" else 10000):
+            ents = []
+            for j in range(rng.randrange(3, 9)):
+                parts = [rng.choice(labels + [b"*"] * 3) for _ in range(rng.randrange(1, 4))]
+                ents.append((rng.choice(PROTOS), b".".join(parts) if rng.random() < 0.9 else b"default", nexthop(j, rng)))
+            pool = [b".".join(rng.choice(labels) for _ in range(rng.randrange(1, 4))) for _ in range(4)] + \
+                   [rng.choice(ents)[1].replace(b"*", rng.choice(labels)) for _ in range(3)]
+            hs = [rng.choice(pool) for _ in range(rng.randrange(4, 16))]
+            toks = [len(ents)]
+            for e in ents:
+                toks += list(e)
+            toks += [len(hs)] + hs
+            cases.append(Case("findroute-seq", "q%d" % i, toks, {"kind": "sequence-random", "entries": len(ents)}))
+            seq_n += 1
         corp = lib.load_corpus("C18")
         cases = corp + cases
 
@@ -84,6 +116,7 @@ class C18:
         cov["exhaustive"] = True
         cov["exhaustive_part"] = exhaustive_n
         cov["random_part"] = m
+        cov["sequence_part"] = seq_n
         cov["corpus_cases"] = len(corp)
         hist = {}
         for c in cases:
